@@ -111,7 +111,7 @@ META = {
     "C07": {
         "level": "exploration",
         "evaluations": ["runs_A", "runs_B"],
-        "required": ["failures", "runs_B", "same_seed_pairs", "first_failure_index_bucket:10", "first_failure_index_bucket:30", "digest_keys_seen_in_2_processes"],
+        "required": ["failures", "runs_B", "same_seed_pairs", "runs_with_failfile_message", "first_failure_index_bucket:10", "first_failure_index_bucket:30", "digest_keys_seen_in_2_processes"],
         "show": ["failures", "runs_B", "same_seed_pairs", "time_cut_not_compared", "digest_keys_seen_in_2_processes"],
         "rule": "random programs whose falsifier has probability 1/k (k=1..60) so that the first falsified case occurs at index 0..100+; run A with "
                 "a random or given base seed, parse -rapid.seed=N from the TB error, run B with that seed: first case must draw A's failing values, "
@@ -124,7 +124,7 @@ META = {
     "C09": {
         "level": "exploration",
         "evaluations": ["checks_run"],
-        "required": ["verdict_pass", "verdict_only_generated", "family:failfiles", "family:failing", "family:realT", "family:flaky-failfile", "deadline_all_skipped"],
+        "required": ["verdict_pass", "verdict_only_generated", "family:failfiles", "family:failing", "family:realT", "family:flaky-failfile", "deadline_all_skipped", "realT_count_runs"],
         "show": ["checks_run", "verdict_pass", "verdict_only_generated", "invocations"],
         "rule": "never-failing properties with skip pattern sigma in {never, always, every j-th, data-dependent 5-95%, 9 of 10} x -rapid.checks N in "
                 "{1,2,3,5,17,100,1000}: count completed/skipped invocations by stream kind against TB verdict (exactly N completed then stop, or "
@@ -171,7 +171,7 @@ META = {
         "evaluations": ["brackets"],
         "required": ["brackets", "cleanups_run", "contexts", "checks_run", "example_calls", "fuzz_cases",
                      "brackets:prop:check:generate", "brackets:prop:check:reproduce", "brackets:prop:check:accepted", "brackets:prop:check:buffer",
-                     "brackets:custom:check:", "brackets:custom:example:", "brackets:prop:fuzz:buffer"],
+                     "brackets:custom:check:", "brackets:custom:example:", "brackets:prop:fuzz:buffer", "goexit_runs", "fail_file_replay_runs"],
         "show": ["brackets", "events", "cleanups_registered", "cleanups_run", "contexts"],
         "rule": "properties with 0-6 body cleanups (none / panic / register more / Errorf / Fatalf / Context()), Custom generator functions with their own "
                 "cleanups and contexts under Filter/distinct (retried), Repeat actions registering cleanups, endings {return, Fatalf, panic, Skip, Errorf}; "
@@ -204,7 +204,7 @@ META = {
     "C06": {
         "level": "exploration",
         "evaluations": ["histories"],
-        "required": ["histories", "run2:auto", "run2:flag", "comment_lines"],
+        "required": ["histories", "run2:auto", "run2:flag", "comment_lines", "two_check_histories"],
         "show": ["histories", "run2:auto", "run2:flag", "comment_lines", "max:fail_file_bytes"],
         "rule": "two/three-run histories in a scratch working directory: run 1 fails with fail files on (24 hostile test names: unicode, path "
                 "separators, '..', glob metacharacters, invalid UTF-8, NUL, Windows reserved names, up to 180 bytes; 11 output classes: none, text, "
@@ -240,7 +240,7 @@ META = {
         "level": "fault_enumeration",
         "evaluations": ["crash_runs"],
         "required": ["scenarios_traced", "crash_runs", "killed_at:write", "killed_at:openat", "killed_at:renameat", "killed_at:mkdirat", "killed_at:close",
-                     "later_run_replayed", "later_run_found_nothing"],
+                     "later_run_replayed", "later_run_found_nothing", "second_saves_after_kill"],
         "show": ["scenarios_traced", "save_syscalls", "crash_runs", "later_run_replayed", "later_run_found_nothing", "crash_point_not_reached"],
         "rule": "a child process (main goroutine locked to the main thread) runs a real failing Check with fail files on in an empty directory under "
                 "strace; the reference trace lists every file-system-affecting system call of the main thread between two marker calls (mkdirat, openat, "
@@ -276,7 +276,7 @@ META = {
     "C12": {
         "level": "exploration",
         "evaluations": ["checks_run"],
-        "required": ["minimised", "family:threshold", "family:collection"],
+        "required": ["minimised", "family:threshold", "family:collection", "short_mode_runs", "slow_search_runs", "failure_mode:1", "failure_mode:2"],
         "show": ["checks_run", "minimised", "never_found"],
         "rule": "threshold properties over all 11 full-range integer kinds: thresholds +-2^j, +-(2^j+-1) for every j, type extremes and neighbours, random "
                 "magnitudes, both directions (quick: every third threshold, one seed; thorough: all x 5 seeds), and 'at least k elements' for "
@@ -292,7 +292,7 @@ META = {
     "C18": {
         "level": "exploration",
         "evaluations": ["ranges8", "band_ranges", "float_band_runs", "float_ulp_ranges", "edge_ranges", "fresh_pairs", "concurrent_fresh_rounds"],
-        "required": ["ranges8", "band_ranges", "float_band_runs", "float_ulp_ranges", "stored_makecheck_triples", "edge_ranges", "fresh_pairs", "concurrent_fresh_rounds", "bands_required", "edges_required",
+        "required": ["ranges8", "band_ranges", "float_band_runs", "float_ulp_ranges", "stored_makecheck_triples", "kind_forms", "fresh_pairs_with_stale_fail_file", "edge_ranges", "fresh_pairs", "concurrent_fresh_rounds", "bands_required", "edges_required",
                      "fresh_sequences_compared_across_processes"],
         "show": ["ranges8", "band_ranges", "bands_required", "float_ulp_ranges", "max:draws_to_cover_float_ulp_range", "edge_ranges", "draws", "max:draws_to_cover_8bit_range", "max:draws_to_hit_all_bands",
                  "max:draws_to_hit_edges", "concurrent_checks", "fresh_sequences_compared_across_processes"],
@@ -314,7 +314,7 @@ META = {
         "level": "exploration",
         "race": True,
         "evaluations": ["cases"],
-        "required": ["cases", "ops", "cleanups", "cases_with_context", "late_cleanup_cases", "porcupine:Ok", "canary_race_reports", "verbose_checks", "checks_run"],
+        "required": ["cases", "ops", "cleanups", "cases_with_context", "late_cleanup_cases", "porcupine:Ok", "canary_race_reports", "verbose_checks", "checks_run", "rapid_log_scenarios"],
         "show": ["cases", "ops", "cleanups", "late_cleanup_cases", "porcupine:Ok", "porcupine:Illegal", "porcupine:Unknown", "race_reports_distinct", "canary_race_reports"],
         "rule": "binary built with -race; each case starts G in {2,4,8,16,32} goroutines behind a barrier, each running a random script over {Helper, Name, Log, "
                 "Logf, Error, Errorf, Fail, Failed, Context, Cleanup} on the case's T (variants: all scripts start with Context(); goroutines polling Context() across the end of the property "
